@@ -48,7 +48,9 @@ META = {
             "beyond 4, scales 2^+-100, argument view modes (slice / strided / transposed storage / expanded / aliased), "
             "mixed-regime batches judged item by item against the single-item call, configured tolerances judged by the "
             "truncated-SVD law.  A deterministic corner corpus (corner_cases, corner_histories, empty batches; 130+ cases) "
-            "runs first on every seed.  A case is non-trivial when the system has at least 2 unknowns (sparse: at "
+            "runs first on every seed; it includes matrices NEARLY symmetric / triangular / diagonal / rank-deficient / zero at "
+            "relative distances 1e-3..1e-14, complex operands, aliased operands, shared-default objects, property subclasses, "
+            "batches up to 2^17+1 (2^20+1 thorough).  A case is non-trivial when the system has at least 2 unknowns (sparse: at "
             "least one stored block on each side) and distinct by its full discrete signature.",
     "trusted": [
         "torch.linalg.pinv / lstsq / cholesky_ex / cholesky_solve, torch.addmm and layout conversions (external kernels: "
